@@ -130,6 +130,14 @@ where
             }));
         }
 
+        let item_size = if !last { next_offset } else { payload_offset };
+        if item_size > data.bytes().len() {
+            return Some(Err(Error {
+                kind: ErrorKind::InsufficientSize,
+                pos: self.pos,
+            }));
+        }
+
         let data = if !last {
             let (data, next_data) = data.split(next_offset);
             self.data = Some(next_data);
